@@ -23,17 +23,17 @@ type TarFile struct {
 
 // DebModel is a format-2.0 .deb as the independent builder lays it out.
 type DebModel struct {
-	ControlText  string     `json:"controlText"`
-	Exp          Exp        `json:"exp"`
-	SourceName   string     `json:"sourceName"`
-	CtlFiles     []TarFile  `json:"ctlFiles"` // entries of control.tar in order; the one named control/./control carries ControlText
-	DataFiles    []TarFile  `json:"dataFiles"`
-	CtlCodec     string     `json:"ctlCodec"`  // "" gz xz bz2 lzma zst
-	DataCodec    string     `json:"dataCodec"` // same
+	ControlText string    `json:"controlText"`
+	Exp         Exp       `json:"exp"`
+	SourceName  string    `json:"sourceName"`
+	CtlFiles    []TarFile `json:"ctlFiles"` // entries of control.tar in order; the one named control/./control carries ControlText
+	DataFiles   []TarFile `json:"dataFiles"`
+	CtlCodec    string    `json:"ctlCodec"`  // "" gz xz bz2 lzma zst
+	DataCodec   string    `json:"dataCodec"` // same
 	// XZOpt: how xz members are written: "" = preset 1 (1 MiB dictionary), "6" = the default
 	// preset of xz and dpkg-deb (8 MiB), "dict16" / "dict64" = a 16 / 64 MiB dictionary (what
 	// xz -7 / -9 declare) - the stream header states the dictionary size whatever the payload
-	XZOpt string `json:"xzOpt,omitempty"`
+	XZOpt        string     `json:"xzOpt,omitempty"`
 	DebianBinary string     `json:"debianBinary"`
 	Extra        []ArMember `json:"extra,omitempty"`    // additional members
 	ExtraPos     int        `json:"extraPos,omitempty"` // 0: after data, 1: between control and data
